@@ -11,11 +11,20 @@
     * constants are reproduced exactly (C08);
     * the weights are the documented profiles: SMA 1/n, WMA (i+1)/(n(n+1)/2) from the oldest
       (i.e. 2(n−age)/(n(n+1))), by definition of the specs.
-  SWMA, TRIMA, HMA, LinReg, SMM, Vidya, VWMA, Conv: the same relations are checked on the real code
-  (metamorphic run: x vs a·x+b, x,y vs x+y, hull, impulse response) and against their from-scratch
-  specs by the method suite; theorems are not yet written for them.
+    * Conv (any weights with non-zero sum; hull for non-negative weights with positive sum), SWMA (length ≥ 2),
+      TRIMA, VWMA (affine in the price for fixed volumes; hull for non-negative volumes with positive sum):
+      affine equivariance, superposition, hull (`C15_conv`, `C15_swma`, `C15_trima`, `C15_vwma`);
+    * HMA and LinReg, which overshoot by design: affine equivariance (and superposition for HMA) only
+      (`C15_hma`, `C15_linreg`).
+    * SMM and Vidya (not linear, no superposition): affine equivariance for every a ≠ 0 — the median because sorting a
+      reflected window reverses it and the two middle positions swap, Vidya because |CMO| is invariant — and the hull
+      (`C15_smm`, `C15_vidya`).
+  So every moving-average kind has its theorems; the same relations are also checked on the real code (metamorphic run).
 -/
 import YataProofs.MALaws
+import YataProofs.MALaws2
+import YataProofs.VidyaLaws
+import YataProofs.SMMLaws
 namespace Yata.C15
 open Yata
 variable {K : Type} [Field K] [LinearOrder K] [IsStrictOrderedRing K]
@@ -54,6 +63,58 @@ theorem C15_constants (n k : Nat) (hn : 0 < n) (α v : K) :
     Spec.emaRec α v (List.replicate k v) = v :=
   ⟨sma_constant n k hn v, wma_constant n k hn v, emaRec_constant α v k⟩
 
+theorem C15_conv (ws : List K) (v : K) (xs : List K) :
+    (ws.sum ≠ 0 → ∀ a b : K, Spec.conv ws (a * v + b) (xs.map fun x => a * x + b) = a * Spec.conv ws v xs + b) ∧
+    (∀ (w : K) (ys : List K), xs.length = ys.length →
+        Spec.conv ws (v + w) (List.zipWith (· + ·) xs ys) = Spec.conv ws v xs + Spec.conv ws w ys) ∧
+    ((∀ w ∈ ws, 0 ≤ w) → 0 < ws.sum → ∀ lo hi : K, (∀ x ∈ v :: xs, lo ≤ x ∧ x ≤ hi) →
+        lo ≤ Spec.conv ws v xs ∧ Spec.conv ws v xs ≤ hi) :=
+  ⟨fun hs a b => conv_affine ws hs a b v xs, fun w ys h => conv_superposition ws v w xs ys h,
+   fun hw hs lo hi h => conv_hull ws hw hs v xs lo hi h⟩
+
+theorem C15_swma (n : Nat) (hn : 2 ≤ n) (v : K) (xs : List K) :
+    (∀ a b : K, Spec.swma n (a * v + b) (xs.map fun x => a * x + b) = a * Spec.swma n v xs + b) ∧
+    (∀ (w : K) (ys : List K), xs.length = ys.length →
+        Spec.swma n (v + w) (List.zipWith (· + ·) xs ys) = Spec.swma n v xs + Spec.swma n w ys) ∧
+    (∀ lo hi : K, (∀ x ∈ v :: xs, lo ≤ x ∧ x ≤ hi) → lo ≤ Spec.swma n v xs ∧ Spec.swma n v xs ≤ hi) :=
+  ⟨fun a b => swma_affine n hn a b v xs, fun w ys h => swma_superposition n hn v w xs ys h,
+   fun lo hi h => swma_hull n hn v xs lo hi h⟩
+
+theorem C15_trima (n : Nat) (hn : 0 < n) (v : K) (xs : List K) :
+    (∀ a b : K, Spec.trima n (a * v + b) (xs.map fun x => a * x + b) = a * Spec.trima n v xs + b) ∧
+    (∀ (w : K) (ys : List K), xs.length = ys.length →
+        Spec.trima n (v + w) (List.zipWith (· + ·) xs ys) = Spec.trima n v xs + Spec.trima n w ys) ∧
+    (∀ lo hi : K, (∀ x ∈ v :: xs, lo ≤ x ∧ x ≤ hi) → lo ≤ Spec.trima n v xs ∧ Spec.trima n v xs ≤ hi) :=
+  ⟨fun a b => trima_affine n hn a b v xs, fun w ys h => trima_superposition n hn v w xs ys h,
+   fun lo hi h => trima_hull n hn v xs lo hi h⟩
+
+theorem C15_vwma (n : Nat) (v : K × K) (xs : List (K × K)) :
+    (((lastN n (history n v xs)).map fun p => p.2).sum ≠ 0 → ∀ a b : K,
+        Spec.vwma n (a * v.1 + b, v.2) (xs.map fun p => (a * p.1 + b, p.2)) = a * Spec.vwma n v xs + b) ∧
+    (∀ lo hi : K, (∀ p ∈ v :: xs, lo ≤ p.1 ∧ p.1 ≤ hi ∧ 0 ≤ p.2) →
+        0 < ((lastN n (history n v xs)).map fun p => p.2).sum → lo ≤ Spec.vwma n v xs ∧ Spec.vwma n v xs ≤ hi) :=
+  ⟨fun hs a b => vwma_affine n a b v xs hs, fun lo hi hp hs => vwma_hull n v xs lo hi hp hs⟩
+
+theorem C15_hma (n : Nat) (h2 : 0 < n / 2) (hs : 0 < Nat.sqrt n) (v : K) (xs : List K) :
+    (∀ a b : K, Spec.hma n (a * v + b) (xs.map fun x => a * x + b) = a * Spec.hma n v xs + b) ∧
+    (∀ (w : K) (ys : List K), xs.length = ys.length →
+        Spec.hma n (v + w) (List.zipWith (· + ·) xs ys) = Spec.hma n v xs + Spec.hma n w ys) :=
+  ⟨fun a b => hma_affine n h2 hs a b v xs, fun w ys h => hma_superposition n h2 hs v w xs ys h⟩
+
+theorem C15_linreg (n : Nat) (hn : 0 < n) (a b v : K) (xs : List K) :
+    Spec.linreg n (a * v + b) (xs.map fun x => a * x + b) = a * Spec.linreg n v xs + b :=
+  linreg_affine n hn a b v xs
+
+theorem C15_smm (n : Nat) (hn : 0 < n) (v : K) (xs : List K) :
+    (∀ a b : K, a ≠ 0 → Spec.smm n (a * v + b) (xs.map fun x => a * x + b) = a * Spec.smm n v xs + b) ∧
+    (∀ lo hi : K, (∀ x ∈ v :: xs, lo ≤ x ∧ x ≤ hi) → lo ≤ Spec.smm n v xs ∧ Spec.smm n v xs ≤ hi) :=
+  ⟨fun a b ha => smm_affine n hn a b v ha xs, fun lo hi h => smm_hull n hn v xs lo hi h⟩
+
+theorem C15_vidya [DecidableEq K] (n : Nat) (hn : 0 < n) (v : K) (xs : List K) :
+    (∀ a b : K, a ≠ 0 → Spec.vidya n (a * v + b) (xs.map fun x => a * x + b) = a * Spec.vidya n v xs + b) ∧
+    (∀ lo hi : K, (∀ x ∈ v :: xs, lo ≤ x ∧ x ≤ hi) → lo ≤ Spec.vidya n v xs ∧ Spec.vidya n v xs ≤ hi) :=
+  ⟨fun a b ha => vidya_affine n a b v ha xs, fun lo hi h => vidya_hull n hn v xs lo hi h⟩
+
 /-- WMA weight profile: impulse response of the spec — a unit value at age `j` (0 = newest) inside
     a zero window contributes `(n - j)/(n(n+1)/2) = 2(n−j)/(n(n+1))` -/
 theorem C15_wma_impulse (n j : Nat) (hj : j < n) :
@@ -84,3 +145,11 @@ end Yata.C15
 #print axioms Yata.C15.C15_smoothing_in_unit_interval
 #print axioms Yata.C15.C15_constants
 #print axioms Yata.C15.C15_wma_impulse
+#print axioms Yata.C15.C15_conv
+#print axioms Yata.C15.C15_swma
+#print axioms Yata.C15.C15_trima
+#print axioms Yata.C15.C15_vwma
+#print axioms Yata.C15.C15_hma
+#print axioms Yata.C15.C15_linreg
+#print axioms Yata.C15.C15_smm
+#print axioms Yata.C15.C15_vidya
